@@ -18,6 +18,7 @@ import (
 	"os"
 	"runtime"
 	"sort"
+	"strings"
 	"sync/atomic"
 	"testing"
 	"testing/synctest"
@@ -122,6 +123,81 @@ type sched struct {
 //
 //go:norace
 func Active() bool { return current() != nil }
+
+// lastDecision: wall-clock time (unix nanoseconds) of the latest scheduler
+// decision of the run in progress, 0 when none is.  Read by StallProbe from the
+// worker's real-time watchdog, which lives outside the bubble.
+var lastDecision int64
+
+// StallProbe reports, for the worker's watchdog, that the simulated run in
+// progress can no longer continue because goroutines of the bubble are blocked on
+// something that is not part of the simulation: a channel or lock created outside
+// the bubble, i.e. process-wide state of the system under test (a package-level
+// semaphore, a pool guarded by a global mutex).  testing/synctest does not count
+// such a goroutine as durably blocked, so the scheduler never becomes runnable
+// again and neither its deadlock nor its livelock detection can fire.  The probe
+// answers only when no decision has been taken for three seconds, no goroutine of
+// the bubble is running or runnable, and at least one is blocked non-durably; the
+// description names where.  "" otherwise.
+func StallProbe() string {
+	t := atomic.LoadInt64(&lastDecision)
+	if t == 0 || time.Since(time.Unix(0, t)) < 3*time.Second {
+		return ""
+	}
+	buf := make([]byte, 8<<20)
+	dump := string(buf[:runtime.Stack(buf, true)])
+	var where []string
+	for _, g := range strings.Split(dump, "\n\n") {
+		head, rest, _ := strings.Cut(g, "\n")
+		if !strings.HasPrefix(head, "goroutine ") || !strings.Contains(head, "synctest bubble") {
+			continue
+		}
+		i, j := strings.IndexByte(head, '['), strings.LastIndexByte(head, ']')
+		if i < 0 || j < i {
+			return ""
+		}
+		state, _, _ := strings.Cut(head[i+1:j], ",")
+		durable := strings.HasSuffix(state, " (durable)")
+		state = strings.TrimSuffix(state, " (durable)")
+		switch state {
+		case "chan send", "chan receive", "select", "sync.Mutex.Lock", "sync.RWMutex.Lock", "sync.RWMutex.RLock",
+			"sync.Cond.Wait", "sync.WaitGroup.Wait", "semacquire", "sleep", "synctest.Run", "synctest.Wait",
+			"select (no cases)", "chan send (nil chan)", "chan receive (nil chan)":
+		default:
+			return "" // running, runnable, in a system call, helping the collector ...: not stalled
+		}
+		if durable {
+			continue
+		}
+		fn := ""
+		for _, l := range strings.Split(rest, "\n") {
+			if strings.HasPrefix(l, "\t") || strings.HasPrefix(l, "created by") {
+				continue
+			}
+			if strings.Contains(l, "unixpickle/model3d") {
+				fn = l
+				break
+			}
+			if fn == "" && !strings.HasPrefix(l, "runtime.") && !strings.HasPrefix(l, "sync.") && !strings.HasPrefix(l, "internal/") {
+				fn = l
+			}
+		}
+		if k := strings.LastIndexByte(fn, '('); k > 0 {
+			fn = fn[:k]
+		}
+		fn = strings.TrimPrefix(fn, "github.com/unixpickle/model3d/")
+		where = append(where, state+" in "+fn)
+	}
+	if len(where) == 0 {
+		return ""
+	}
+	sort.Strings(where)
+	n := len(where)
+	if n > 6 {
+		where = append(where[:6], "...")
+	}
+	return fmt.Sprintf("the run cannot continue: %d goroutine(s) of the system under test are blocked on a channel or lock that is not part of the simulated run (process-wide state), and nothing else can run: %s", n, strings.Join(where, "; "))
+}
 
 // Stuck is 1 while a run that exceeded its step budget has not returned yet.
 var Stuck int32
@@ -576,6 +652,7 @@ func (s *sched) loop() {
 			s.res.Head = append(s.res.Head, Step{Task: id, Site: chosen.site, Key: chosen.key, Of: len(run)})
 		}
 		s.res.Steps++
+		atomic.StoreInt64(&lastDecision, time.Now().UnixNano())
 		rest := make([]*entry, 0, len(p)-1)
 		for _, e := range p {
 			if e != chosen {
@@ -626,6 +703,8 @@ func Run(t *testing.T, cfg Config, root func()) Result {
 	// The bubble runs in a sub-test: when the race detector reported something
 	// during the run, testing/synctest fails the bubble's T and calls FailNow on
 	// its parent, which must not unwind the worker's own test goroutine.
+	atomic.StoreInt64(&lastDecision, time.Now().UnixNano())
+	defer atomic.StoreInt64(&lastDecision, 0)
 	t.Run("sim", func(t *testing.T) {
 		defer func() {
 			// the end-of-bubble deadlock panic of synctest (all goroutines blocked)
